@@ -1,0 +1,8 @@
+//go:build verif && (!amd64 || purego)
+
+package bigmod
+
+// VerifDispatch reports the implementation tier selected for this process.
+func VerifDispatch() map[string]bool {
+	return map[string]bool{"generic": true}
+}
